@@ -31,7 +31,10 @@ class ImageFormation(HoloPyObject):
         """
         if scatterer.center is None:
             raise MissingParameter("center")
-        is_multicolor_hologram = len(ensure_array(schema.illum_wavelen)) > 1
+        # (a single labelled channel still has an illumination axis)
+        is_multicolor_hologram = (
+            len(ensure_array(schema.illum_wavelen)) > 1 or
+            illumination in getattr(schema.illum_wavelen, 'dims', ()))
         field = (
             self._calculate_multiple_color_scattered_field(scatterer, schema)
             if is_multicolor_hologram else
